@@ -39,8 +39,8 @@ def plan(tier: str) -> dict:
             for off in range(1, n):
                 cases.append({"worker": worker, "case": {"proto": "h2", "req": k, "split": off}})
     return {
-        "runs": 6000 if tier == "quick" else 400000,
-        "budget": 70 if tier == "quick" else 900,
+        "runs": 20000 if tier == "quick" else 400000,
+        "budget": 150 if tier == "quick" else 900,
         "cases": cases,
         "chunk": 40,
         "rule": "Random HTTP/1.0/1.1/2/h2c request sessions from a conservative well-formed grammar "
